@@ -1247,7 +1247,9 @@ emitJavaFileName(EmitInfo finfo, JavaCode javaFile)
 	FileName javaFileName = emitFileName(finfo, FTYPENO_JAVA);
 	String fileName = jcFileClassName(javaFile);
 	String pkgName = strReplace(jcFilePackageName(javaFile), ".", "/");
-	String destDir = strPrintf("%s/%s", fnameDir(javaFileName),
+	/* No directory part means the current directory, not the root of the file system. */
+	String dir = fnameDir(javaFileName);
+	String destDir = strPrintf("%s/%s", (dir && dir[0]) ? dir : ".",
 				   pkgName == NULL ? "" : pkgName);
 
 	return fnameNew(destDir, fileName, FTYPE_JAVA);
